@@ -551,7 +551,14 @@ def call_ext(ex, dotted, args, kwargs, node, frame):
         ex.emit("raw_use", node, what=f"operand of {dotted}", value=None)
     f = EXT.get(dotted)
     if f is not None:
-        return f(ex, args, kwargs, node)
+        try:
+            return f(ex, args, kwargs, node)
+        except (AttributeError, TypeError):
+            # a model written for numeric operands met an un-interpreted value: the result is un-interpreted too
+            if any(isinstance(a, OpaqueV) and not is_raw(a) for a in list(args) + list(kwargs.values())):
+                ex.emit("unmodelled", node, callee=dotted, args=args, kwargs=kwargs)
+                return OpaqueV(f"{dotted}({','.join(valkey(a) for a in args)})", {"call": dotted, "args": args, "kwargs": kwargs})
+            raise
     if dotted.startswith("builtins.") and dotted.split(".")[1] in (
         "ValueError", "TypeError", "RuntimeError", "NotImplementedError", "IndexError", "KeyError",
         "AttributeError", "Exception", "AssertionError",
@@ -1439,6 +1446,30 @@ def _np_quantile(ex, args, kwargs, node):
 def _np_mean(ex, args, kwargs, node):
     v = _arr(ex, args[0], node)
     return ex.mk("mean", ex.as_nf(v, node), shape=(), dtype="float")
+
+
+@model("numpy.var", "numpy.std")
+def _np_var(ex, args, kwargs, node):
+    v = _arr(ex, args[0], node)
+    name = "std" if ast.unparse(node.func).endswith("std") else "var"
+    axis = _kw(args, kwargs, 1, "axis", None)
+    ddof = kwargs.get("ddof")
+    dd = ddof.nf if isinstance(ddof, Num) else NF.const(0)
+    ax = cint(axis) if isinstance(axis, Num) else None
+    shape = ()
+    if ax is not None and v.shape is not None and len(v.shape) >= 1:
+        shape = tuple(d for i, d in enumerate(v.shape) if i != (ax % len(v.shape)))
+    return ex.mk(name, ex.as_nf(v, node), dd, NF.const(ax) if ax is not None else "all", shape=shape, dtype="float")
+
+
+@model("numpy.argsort")
+def _np_argsort(ex, args, kwargs, node):
+    v = _arr(ex, args[0], node)
+    # the sorting permutation of v (kind= only selects the algorithm / stability)
+    r = ex.mk("argsort", ex.as_nf(v, node), shape=v.shape, dtype="int")
+    r.meta["perm_of"] = v
+    r.meta["kind"] = "POS"
+    return r
 
 
 @model("numpy.unique")
